@@ -233,7 +233,12 @@ def create_product(sc, pcfg, version, bcfg, bounds, pad, depth, tmp, name='prod.
     finally:
         rd.close()
         os.remove(path)
-    return {'img': img, 'sidd': sidd, 'sizes': sizes, 'reader_type': rtype, 'log': log, 'ph': ph, 'oh': oh, 'remap': remap}
+    # the oracle maps source pixels through a FRESH remap with the declared global parameters: product creation must neither recompute
+    # them from the processed region nor leave the caller's remap object modified
+    state_after = (getattr(remap, 'min_value', None), getattr(remap, 'max_value', None))
+    fresh = make_remap(depth, sc)
+    return {'img': img, 'sidd': sidd, 'sizes': sizes, 'reader_type': rtype, 'log': log, 'ph': ph, 'oh': oh, 'remap': fresh,
+            'remap_state': (state_after, (fresh.min_value, fresh.max_value))}
 
 
 def sidd_plane(sidd):
@@ -318,6 +323,9 @@ def check_product(sc, prod, case, fail, stats, disagree):
             disagree('ortho_to_pixel', f'PGProjection.ortho_to_pixel differs from the route through the product metadata by {d3:.3e} px '
                      f'(undecided band {sc.eps:.3e})', case)
     cls, nr, nc = classify(sc, x, y)
+    st_after, st_decl = prod.get('remap_state', (None, None))
+    if st_after != st_decl:
+        fail('remap:globals-modified', f'the global parameters of the caller\'s remap object were {st_decl} (min, max) and are {st_after} after create_detected_image_sidd', case)
     remapped = prod['remap'](sc.amp)
     fill = int(prod['remap'](numpy.array([[0.0 if case['pad'] is None else case['pad']]], dtype='float32'))[0, 0])
     v = img.reshape((R * C,)).astype('int64')
